@@ -42,6 +42,15 @@ func runC08(t *simrt.Tape, o Opts) Outcome {
 		pol := world.GenPolicy(t, gen)
 		pol.Precision = []time.Duration{time.Second, time.Minute}[t.Choose(2, "prec")]
 		nparts := 2 + t.Choose(7, "nparts")
+		// one run in five starts from the state in which copies of one key keep replacing each other in a
+		// cache: a coarse creation-stamp precision, a key revoked inside its own stamp window (its
+		// replacement collides with it, so the revoked key stays the latest) and a cache that has learnt
+		// of the revocation - from then on every encrypt on that partition reloads the key
+		revokedInWindow := t.Choose(5, "revoked-inside-stamp-window") == 1
+		if revokedInWindow {
+			pol.Precision = 24 * time.Hour
+			nparts = 1 + t.Choose(2, "nparts.few")
+		}
 		parts := make([]string, nparts)
 		for i := range parts {
 			parts[i] = fmt.Sprintf("p%d", i)
@@ -52,6 +61,9 @@ func runC08(t *simrt.Tape, o Opts) Outcome {
 			for i := range parts {
 				parts[i] = fmt.Sprintf("q%d", i)
 			}
+		}
+		if async {
+			revokedInWindow = false
 		}
 		faulty := !async && t.Choose(4, "faulty") == 1
 		p := w.NewProc(pol)
@@ -72,6 +84,22 @@ func runC08(t *simrt.Tape, o Opts) Outcome {
 		}
 		if t.Choose(3, "rotate-before") == 1 {
 			w.Advance(pol.Expire + time.Hour*25)
+		}
+		if revokedInWindow && len(seedRecs) > 0 {
+			// (after a possible rotate-before the newest rows are the seed records' keys or none newer:
+			// encrypt once more so that every partition has a current key, then revoke those)
+			for i := 0; i < nparts; i++ {
+				if se, err := w.Open(p, parts[i]); err == nil {
+					if rec, _ := w.Encrypt(se, w.Payload(2)); rec != nil {
+						seedRecs = append(seedRecs, rec)
+						if t.Choose(2, "revoke.which") == 0 || i == 0 {
+							w.Store.Revoke(rec.IKID, rec.IKCreated)
+						}
+					}
+					w.CloseSess(se)
+				}
+			}
+			w.Advance(pol.Revoke + time.Second)
 		}
 		w.Drain()
 		if faulty {
